@@ -96,7 +96,10 @@ def sec_147():
             'native code and outlive the deadline by whole seconds (1.5 / 3.2 s quick, up to 13 s thorough): a join that gives up',
             'after max(limit, 1 s) returned control while the worker was still inside the function; C18-s3 (constraint list',
             'shared between a graph and its copies) and C20-s3 (nested supplementary choice whose mapping is registered before',
-            'its parent\'s) were caught by the checks as they stood.', '']
+            'its parent\'s) were caught by the checks as they stood. Fourth round (C08-s3 status array shared with the graph a',
+            'connection choice is applied to; C09-s3 gap values of a non-contiguous target degree list accepted as column sums;',
+            'C16-s3 bounds fraction computed before clamping, so a linked continuous node stores a value outside its bounds): all',
+            'three caught by the checks as they stood (C09-s3 also by C11).', '']
     return out
 
 
